@@ -7,6 +7,7 @@ what the *raw built-in operator* yields on the same operands; the only independe
 HARNESS = r'''
 #include <vector>
 #include <algorithm>
+#include <csignal>
 namespace c13 {
 typedef __int128 i128;
 
@@ -195,6 +196,72 @@ void sweep_on(const char *unit, Mk mk, const std::vector<R> &av, const std::vect
     }
     std::printf("S {\"k\":\"op\",\"unit\":\"%s\",\"rep\":\"%s\",\"op\":\"%s\",\"evals\":%llu,\"skipped\":%llu,\"bad\":%llu,\"varied\":%d}\n",
                 unit, TN<R>::n().c_str(), Op::name(), evals, skipped, bad, (int)varied);
+}
+// scalar operators with a scalar type S different from the rep R: the scalar alphabet deliberately contains values
+// that do NOT survive a conversion to R (the raw operator works in the common type of R and S)
+template <class S> std::vector<S> scalar_vals_int(i128 rlo, i128 rhi) {
+    std::vector<i128> xs;
+    const i128 lo = (i128)std::numeric_limits<S>::min(), hi = (i128)std::numeric_limits<S>::max();
+    const i128 anchors[] = {0, rlo, rhi, rhi + 1, 2 * (rhi + 1), 3 * (rhi + 1) + 2, -(rhi + 1) * 2, 200, 1000, 40000, 100000, 3000000000LL,
+                            ((i128)1 << 32) + 2, -(((i128)1 << 32) + 2), lo, hi};
+    for (i128 a : anchors) for (int d = -3; d <= 3; ++d) { const i128 x = a + d; if (x >= lo && x <= hi) xs.push_back(x); }
+    std::sort(xs.begin(), xs.end());
+    xs.erase(std::unique(xs.begin(), xs.end()), xs.end());
+    std::vector<S> v;
+    for (i128 x : xs) v.push_back((S)x);
+    return v;
+}
+template <class S> std::vector<S> scalar_vals_fp() {
+    const S v[] = {S(1), S(-1), S(2), S(0.5), S(1.1L), S(-3.3L), S(1e-60L), S(1e60L), S(1) / S(3), S(7.25), S(1e-310L), S(65536.0000152587890625L)};
+    return std::vector<S>(v, v + sizeof v / sizeof v[0]);
+}
+template <class R, class S, bool F = std::is_floating_point<S>::value> struct ScalarVals {
+    static std::vector<S> get() { return scalar_vals_int<S>((i128)std::numeric_limits<R>::min(), (i128)std::numeric_limits<R>::max()); } };
+template <class R, class S> struct ScalarVals<R, S, true> { static std::vector<S> get() { return scalar_vals_fp<S>(); } };
+template <class R, class S, bool FR = std::is_floating_point<R>::value> struct DefS {
+    static bool ok(Kind k, R a, S b) { return Def<R, S>::ok(k, a, b); } };
+template <class R, class S> struct DefS<R, S, true> {   // floating: everything is defined except nothing (inf/NaN results compare as such)
+    static bool ok(Kind, R, S) { return true; } };
+// a trap inside the library (e.g. SIGFPE from dividing by a wrongly narrowed scalar) on operands whose raw operation
+// is defined is a violation for those operands: report it as a V line and stop with a distinct exit code
+static const char *volatile cur_unit = "", *volatile cur_rep = "", *volatile cur_op = "";
+static volatile long double cur_a = 0, cur_b = 0;
+extern "C" inline void c13_trap(int sig) {
+    std::fflush(stdout);
+    std::printf("V {\"unit\":\"%s\",\"rep\":\"%s\",\"op\":\"%s\",\"a\":\"%.21Lg\",\"b\":\"%.21Lg\",\"ah\":\"%.21Lg\",\"bh\":\"%.21Lg\",\"got\":\"trap-signal-%d\",\"want\":\"the raw result\",\"got_t\":\"\",\"want_t\":\"\"}\n",
+                cur_unit, cur_rep, cur_op, (long double)cur_a, (long double)cur_b, (long double)cur_a, (long double)cur_b, sig);
+    std::fflush(stdout);
+    std::_Exit(86);
+}
+template <class Op, class R, class S, class Mk>
+void sweep_scalar(const char *unit, Mk mk, const char *sname) {
+    std::signal(SIGFPE, c13_trap);
+    unsigned long long evals = 0, skipped = 0, bad = 0;
+    int shown = 0;
+    typedef decltype(Op::raw(R{}, S{})) W;
+    typedef decltype(Op::au(mk, R{}, S{})) G;
+    const std::vector<R> &av = pair_vals<R>();
+    const std::vector<S> bv = ScalarVals<R, S>::get();
+    static const std::string opn = std::string(Op::name()) + "@" + sname;
+    static const std::string repn = TN<R>::n();
+    cur_unit = unit; cur_rep = repn.c_str(); cur_op = opn.c_str();
+    for (R a : av) for (S b : bv) {
+        if (!DefS<R, S>::ok(Op::kind, a, b)) { ++skipped; continue; }
+        const W want = Op::raw(a, b);
+        cur_a = (long double)a; cur_b = (long double)b;
+        const G got = Op::au(mk, a, b);
+        ++evals;
+        if (!std::is_same<G, W>::value || !Same<G, W>::eq(got, want)) {
+            ++bad;
+            if (shown++ < 3)
+                std::printf("V {\"unit\":\"%s\",\"rep\":\"%s\",\"op\":\"%s\",\"a\":\"%s\",\"b\":\"%s\",\"ah\":\"%s\",\"bh\":\"%s\",\"got\":\"%s\",\"want\":\"%s\",\"got_t\":\"%s\",\"want_t\":\"%s\"}\n",
+                            unit, TN<R>::n().c_str(), opn.c_str(), Str<R>::s(a).c_str(), Str<S>::s(b).c_str(),
+                            Str<R>::h(a).c_str(), Str<S>::h(b).c_str(), Str<G>::h(got).c_str(), Str<W>::h(want).c_str(),
+                            TN<G>::n().c_str(), TN<W>::n().c_str());
+        }
+    }
+    std::printf("S {\"k\":\"op\",\"unit\":\"%s\",\"rep\":\"%s\",\"op\":\"%s\",\"evals\":%llu,\"skipped\":%llu,\"bad\":%llu,\"varied\":1}\n",
+                unit, TN<R>::n().c_str(), opn.c_str(), evals, skipped, bad);
 }
 template <class Op, class R, class Mk> void sweep(const char *unit, Mk mk) {
     if (Op::unary) sweep_on<Op, Mk, R>(unit, mk, unary_vals<R>(), std::vector<R>(1, R{}));
